@@ -336,17 +336,6 @@ Proof.
   destruct (encode_exchange_headers e); cbn [to_opt]; split; intros H'; try congruence; contradiction.
 Qed.
 
-(* ---- when do the header maps have a duplicate key? --------------------------------- *)
-Lemma epair_inj (a b : bytes * bytes) : pair_fits a -> pair_fits b -> fst (epair a) = fst (epair b) -> fst a = fst b.
-Proof.
-  intros [Ha _] [Hb _] E. unfold epair in E. cbn [fst] in E.
-  assert (Ea : canon (CBytes (fst a)) = Some (enc_bytes (fst a))) by (apply canon_bytes; exact Ha).
-  (* decode both sides *)
-  pose proof (Proofs.CborHead.head_roundtrip_shead MBytes (lenN (fst a)) (fst a) mc_bytes Ha) as H1.
-  pose proof (Proofs.CborHead.head_roundtrip_shead MBytes (lenN (fst b)) (fst b) mc_bytes Hb) as H2.
-  unfold enc_bytes, enc_bytes_of in E. rewrite E in H1. rewrite H1 in H2. inversion H2. reflexivity.
-Qed.
-
 (* ---- C08 headers_perm_invariant ----------------------------------------------------- *)
 Theorem headers_perm_invariant (e e' : exchange) :
   Permutation (e_reqh e) (e_reqh e') -> Permutation (e_resph e) (e_resph e') ->
